@@ -302,6 +302,7 @@ type workBudgetExceeded struct{ n int }
 //
 //go:norace
 func (s *Sched) Work() {
+	Progress.Add(1) // a call grinding through the store is progress for the watchdog
 	if s.WorkBudget == 0 {
 		return
 	}
